@@ -428,7 +428,11 @@ func newHandle(format string, o vh.Opts) codec.Handle {
 
 // mapvalfield / ifacefield: X is a FIELD (between two int64 neighbours) of a small struct that is a map value / held by
 // value in an interface{}: the struct is decoded in scratch space the hook of X must not disturb
-var positions = []string{"top", "ptr", "ptrptr", "field", "slice", "array", "mapval", "mapkey", "iface", "ifaceptr", "mapvalfield", "ifacefield"}
+// mapiface / mapifaceptr: X / *X held in the interface{} VALUE of a map with a named key type (general map path),
+// decoded into a map that already holds a value of that type under the key
+var positions = []string{"top", "ptr", "ptrptr", "field", "slice", "array", "mapval", "mapkey", "iface", "ifaceptr", "mapvalfield", "ifacefield", "mapiface", "mapifaceptr"}
+
+type mapKeyName string
 
 // place builds the value holding x (x: addressable reflect.Value of type X set to sample a) at position p, and a
 // destination of the same shape for Decode (pointer to it is returned).
@@ -497,6 +501,20 @@ func place(p string, xt reflect.Type, a int) (src reflect.Value, dst reflect.Val
 		d := reflect.New(st)
 		d.Elem().Field(0).Set(reflect.New(xt).Elem()) // zero X inside the interface
 		return s, d
+	case "mapiface", "mapifaceptr":
+		mt := reflect.MapOf(reflect.TypeOf(mapKeyName("")), ifaceT)
+		m := reflect.MakeMap(mt)
+		d := reflect.New(mt)
+		d.Elem().Set(reflect.MakeMap(mt))
+		k := reflect.ValueOf(mapKeyName("k"))
+		if p == "mapiface" {
+			m.SetMapIndex(k, x)
+			d.Elem().SetMapIndex(k, reflect.New(xt).Elem())
+		} else {
+			m.SetMapIndex(k, x.Addr())
+			d.Elem().SetMapIndex(k, reflect.New(xt))
+		}
+		return m, d
 	case "mapvalfield", "ifacefield":
 		in := reflect.StructOf([]reflect.StructField{{Name: "A", Type: reflect.TypeOf(int64(0))}, {Name: "F", Type: xt}, {Name: "B", Type: reflect.TypeOf(int64(0))}})
 		v := reflect.New(in).Elem()
@@ -555,7 +573,7 @@ func main() {
 	cases := flag.String("cases", "/verif/build/c17/cases", "directory for the model case files")
 	flag.Parse()
 	r := vh.NewRng(vh.SeedFromEnv())
-	sum := vh.NewSummary("24 types (a Selfer that re-enters the Decoder on a general-path map, Text / Binary marshalers whose form is empty-not-nil for the zero value, named scalar-kind types with Text / Binary / Selfer / all pairs, BytesExt/InterfaceExt, SelfExt, ext+Selfer, Selfer value/pointer receiver, Selfer+marshalers, Binary/Text/JSON marshaler pairs with value and pointer receivers, all three pairs, marshal-only, unmarshal-only, time.Time) x 12 positions (incl. a field of a small struct that is a map value / held by value in an interface{}) x root by value / by pointer x 5 formats x option vectors (Canonical on in every second round, TimeNotBuiltin in every third); distinct by (type, position, root, format, mechanism observed)")
+	sum := vh.NewSummary("24 types (a Selfer that re-enters the Decoder on a general-path map, Text / Binary marshalers whose form is empty-not-nil for the zero value, named scalar-kind types with Text / Binary / Selfer / all pairs, BytesExt/InterfaceExt, SelfExt, ext+Selfer, Selfer value/pointer receiver, Selfer+marshalers, Binary/Text/JSON marshaler pairs with value and pointer receivers, all three pairs, marshal-only, unmarshal-only, time.Time) x 14 positions (incl. the interface{} value of a named-key map, pre-populated; a field of a small struct that is a map value / held by value in an interface{}) x root by value / by pointer x 5 formats x option vectors (Canonical on in every second round, TimeNotBuiltin in every third); distinct by (type, position, root, format, mechanism observed)")
 	cv := vh.NewCases(*cases, "From Coq Require Import List NArith Bool.\nFrom Verif Require Import Gen.Choice C17.Model C17.Corr.\nImport ListNotations.", "case", "mismatches", 60)
 	id := 0
 	for _, format := range vh.Formats {
